@@ -721,6 +721,16 @@ B("makeId hands out the candidate after 100 tries whether it is free or not", ["
   [(FAC, "            if not self._idInUse(self.id):\n                return self.id\n", "            if not self._idInUse(self.id) or _ > 100:\n                return self.id\n")], {"C17": ["ID-VERDICT"]})
 B("makeId as a while loop that leaves with a candidate still in use once few attempts remain", ["C17"],
   [(FAC, _MAKEID_OLD, _MAKEID_WHILE.replace("ZERO", "            if not candidate:\n                candidate = 1\n").replace("            if not self._idInUse(candidate):\n", "            if not self._idInUse(candidate) or attempts < 10:\n"))], {"C17": ["ID-VERDICT"]})
+_FR_GUARD = "                if lenLen < len(self._buffer) and self._buffer[lenLen] & 0x80:\n                    return\n"
+N("framer guard with the length on the left", ALL, [(BASE, _FR_GUARD, "                if len(self._buffer) > lenLen and self._buffer[lenLen] & 0x80:\n                    return\n")])
+N("framer guard as a nested test", ALL, [(BASE, _FR_GUARD, "                if lenLen < len(self._buffer):\n                    if self._buffer[lenLen] & 0x80:\n                        return\n")])
+B("framer reads the byte after the length field without a length test", ["C03", "C16"],
+  [(BASE, _FR_GUARD, "                if lenLen <= len(self._buffer) and self._buffer[lenLen] & 0x80:\n                    return\n")], {"C03": ["F4"], "C16": ["E3"]})
+B("framer scan loop runs one index past the buffer", ["C03", "C16"],
+  [(BASE, "                while lenLen < len(self._buffer):\n", "                while lenLen <= len(self._buffer):\n")], {"C03": ["F4", "F3"], "C16": ["E3"]})
+B("SUBACK handler fires the Deferred before the request has left its window", ["C07"],
+  [(PS, "            request = self.factory.windowSubscribe[self.addr][response.msgId]\n            del self.factory.windowSubscribe[self.addr][response.msgId]\n            request.alarm.cancel()\n            request.deferred.callback(response.granted)",
+    "            request = self.factory.windowSubscribe[self.addr][response.msgId]\n            request.alarm.cancel()\n            request.deferred.callback(response.granted)\n            del self.factory.windowSubscribe[self.addr][response.msgId]")], {"C07": ["S-ACK"]})
 B("whole registry measured through a local alias (retry delay depends on the number of addresses)", ["C19"],
   [(PS, "        interval = request.interval() + 0.25*len(self.factory.windowSubscribe[self.addr])",
     "        windows = self.factory.windowSubscribe\n        interval = request.interval() + 0.25*len(windows)")], {"C19": ["I-KEY"]})
